@@ -137,8 +137,9 @@ def check(pid, tier, seed):
         res, failures = validate_traces(sc, 'IndexTrace', 'IndexTrace.cfg', [{k: t[k] for k in keys} for t in traces],
                                         workers=16, timeout=3000, invariants=CLAUSES)
         out.add(traces_validated_against_impl=len(traces), plans=len(take), trace_states=res.distinct,
-                tool_batches=sum(1 for t in traces for s in t['steps'] if s.get('label') == 'batch'),
-                overflow_runs=sum(1 for t in traces if t.get('overflow')))
+                tool_batches=sum(1 for t in traces for s in t['steps'] if s.get('label') == 'batch'))
+        # (not a measure of work: how many of the runs left the claim through the overflow carve-out - it varies with the plans drawn)
+        out.notes.append(f"runs judged only up to the point where they left the claim (overflow carve-out): {sum(1 for t in traces if t.get('overflow'))}")
         seen = set()
         for f in sorted(failures, key=lambda f: (f['tid'], f['l'])):
             if f['clause'] not in CLAUSES or f['tid'] in seen:
